@@ -10,6 +10,8 @@ import (
 	"strings"
 	"sync/atomic"
 
+	"sync"
+	"time"
 	"verif/engine/envx"
 	"verif/engine/ev"
 	"verif/gen"
@@ -236,6 +238,53 @@ func C07(tier string) {
 		r.DistinctN(distinct)
 	})
 
+	// a source that stalls: data stops for a few seconds in the middle of the
+	// metadata and then continues (a pipe, a slow network body). A loader with a
+	// time limit of its own must still hand back a stream that replays everything
+	// the source delivers. One stall of 2.5 s per loader and seed, all in parallel.
+	{
+		type stallJob struct {
+			seed *Case
+			li   int
+			at   int
+		}
+		seeds := smallSeeds()
+		var jobs []stallJob
+		for _, si := range []int{1, 4, 8} { // png+iCCP, jpeg+ICC2, webp VP8X+ICCP
+			for _, li := range []int{loaderIndexFor(seeds[si].Info.Format), 3} {
+				jobs = append(jobs, stallJob{&seeds[si], li, 20})
+			}
+		}
+		var swg sync.WaitGroup
+		for _, j := range jobs {
+			j := j
+			swg.Add(1)
+			go func() {
+				defer swg.Done()
+				src := &stallingReader{data: j.seed.Data, at: j.at, pause: 2500 * time.Millisecond}
+				var got []byte
+				var lerr, rerr error
+				func() {
+					defer func() {
+						if p := recover(); p != nil {
+							lerr = fmt.Errorf("panic: %v", p)
+						}
+					}()
+					_, st, err := loaders[j.li].Load(src)
+					lerr = err
+					if st != nil {
+						got, rerr = io.ReadAll(st)
+					}
+				}()
+				r.Eval(1)
+				if !bytes.Equal(got, j.seed.Data) || rerr != nil {
+					r.Violate("stalling-source/"+loaders[j.li].Name, fmt.Sprintf("%s.Load of %s from a source that pauses 2.5 s after %d bytes: the returned stream yields %d bytes (error %v, Load error %v), the source delivered all %d", loaders[j.li].Name, j.seed.Name, j.at, len(got), rerr, lerr, len(j.seed.Data)), nil, nil)
+				}
+			}()
+		}
+		swg.Wait()
+	}
+
 	// sources of other dynamic types: the loaders take an io.Reader, but a
 	// bytes.Reader / strings.Reader / bufio.Reader / os.File also offers Seek,
 	// WriteTo, ReadByte..., and may be handed over already positioned past a
@@ -454,4 +503,44 @@ func C07(tier string) {
 	r.Sample(c07Case{"seed jpeg+ICC2", "autometa", "data+I/O error", "1-byte reads", 57, 1, hexHead(small[4].Data, 64)})
 	r.Sample(c07Case{"repo pizza-rgb8-srgb.png", "pngmeta", "EOF", "io.ReadAll", 4097, 0, ""})
 	r.Finish()
+}
+
+// stallingReader delivers data[:at], then sleeps once, then the rest.
+type stallingReader struct {
+	mu     sync.Mutex // one Read at a time, like a pipe: a second reader waits behind the stalled one
+	data   []byte
+	pos    int
+	at     int
+	pause  time.Duration
+	paused bool
+}
+
+func (s *stallingReader) Read(p []byte) (int, error) {
+	s.mu.Lock()
+	defer s.mu.Unlock()
+	if s.pos >= len(s.data) {
+		return 0, io.EOF
+	}
+	end := len(s.data)
+	if !s.paused {
+		if s.pos >= s.at {
+			s.paused = true
+			time.Sleep(s.pause)
+		} else if end > s.at {
+			end = s.at
+		}
+	}
+	n := copy(p, s.data[s.pos:end])
+	s.pos += n
+	return n, nil
+}
+
+func loaderIndexFor(format string) int {
+	switch format {
+	case "PNG":
+		return 0
+	case "JPEG":
+		return 1
+	}
+	return 2
 }
